@@ -15,12 +15,12 @@ T = {
  "C04": ("fault_enumeration", "Runtime monitor: offline checker over the trace + shadow file system of scheduled histories with injected fdatasync/write failures (singles, consecutive pairs/triples, short/partial writes): at every Ack(Ok) everything journalled before that flush call must be durable in its file; at-most-once, exactly-once without faults, order.", "shadow-FS durability rule at every Ack event under EIO plans"),
  "C05": ("fault_enumeration", "Same crash-image enumeration as C03: the real open must return Ok on every image (no Err, no panic), the recovered store must take 8 more writes + flush + restart in agreement with the model, and crash images of traced recoveries must open too. One genuine defect (D6) is recorded as a known finding and matched by its exact witness signature.", "crash images -> real open must succeed + continuation + crash during recovery"),
  "C06": ("exploration", "Runtime monitor: calls the sequential specification rejects are injected into legal histories; a before/after snapshot (state, entries, cache counters, resident set via hook H1, journal end, on-disk size) must be identical, the history continues in lock-step and a final flush+restart must open with the same state.", "snapshot-diff monitor around model-rejected calls + restart"),
- "C07": ("exploration", "Runtime monitor: under tiny cache limits the worker is stepped through its file-system calls by an in-binary gate; at every point where it is parked or idle all live entries are read (range read + snapshot iteration) and compared with the model; reader threads read concurrently with a free-running worker. Known findings D7a/D7b matched by exact signature.", "reads at every worker stall point under tiny caches, 4 concurrent readers"),
+ "C07": ("exploration", "Runtime monitor: under tiny cache limits the worker is stepped through its file-system calls by an in-binary gate; at every point where it is parked or idle all live entries are read (range read + snapshot iteration) and compared with the model; reader threads read concurrently with a free-running worker. Thorough adds Miri (UB / data-race detector, 3 histories x 8 scheduler seeds) on a scaled-down concurrent-read workload; Miri being unavailable is recorded and never changes the verdict. Known findings D7a/D7b matched by exact signature.", "reads at every worker stall point under tiny caches, 4 concurrent readers; Miri in thorough"),
  "C08": ("fault_enumeration", "Runtime monitor: offline checker at every unlink event of scheduled, purge-heavy, fault-injected histories: oldest first, nothing live inside the deleted chunk, durable remainder below the scheduling flush self-contained (replayed with the reference codec + model); end-state check on the directory.", "trace rule at every unlink over the shadow FS + end-state check"),
  "C09": ("fault_enumeration", "Runtime monitor: every byte of every complete record of store-made images is replaced (quick 12 values, thorough all 255: exhaustive per image) and every middle chunk removed; the real open must report, never panic, never succeed silently, and a refused open must leave older chunks untouched. Known findings D11a/D11b matched by exact signature.", "per-byte mutation sweep of store-made images, files-unchanged check"),
  "C10": ("fault_enumeration", "Runtime monitor: every cut position of the newest chunk and zero tails of 16 lengths from every record boundary, with truncation enabled (exact prefix recovered, file cut back, continuation) and disabled (refused, untouched; boundary cuts open).", "exhaustive cut / zero-tail sweep per image, both truncate settings"),
  "C11": ("exploration", "Runtime monitor: a byte-exact reference journal (independent codec + rotation rule) is predicted from the accepted records; after every flush+ack+idle the directory is compared byte-for-byte, names/abutment/on_disk_size/Dump are checked, every returned segment is compared with the predicted place of its record; the file-name codec is round-tripped on boundary and random u64.", "byte-exact reference journal vs directory, returned segments, Dump differential"),
- "C12": ("exploration", "Runtime monitor: differential test of the crate's codec against an independent reference codec on generated records and on mutants / arbitrary bytes under catch_unwind (~10^7 decodes).", "two-codec differential + mutation totality"),
+ "C12": ("exploration", "Runtime monitor: differential test of the crate's codec against an independent reference codec on generated records and on mutants / arbitrary bytes under catch_unwind (~10^7 decodes); thorough adds Miri runs of the same oracles on a reduced input set (supplementary: the crate has no unsafe code).", "two-codec differential + mutation totality; Miri in thorough"),
  "C13": ("exploration", "Runtime monitor: threads (online owner counter) and child processes (ownership intervals on CLOCK_MONOTONIC merged offline) contend for one directory; at most one owner at any time, refused attempts leave chunk files byte-identical, open succeeds once everybody is gone.", "owner-interval overlap monitor, threads online + processes offline"),
  "C14": ("exploration", "Runtime monitor: the worker is stepped until the last flush's callback fired and is parked in front of its queued unlinks; the store is dropped on a helper thread and reopened at seeded placements relative to the old worker's remaining steps. Trace rule: no directory mutation by the dropped instance's worker after drop returned; reopen shows the acknowledged state; the new instance's purge+flush is acknowledged.", "trace ordering rule (old-worker mutation after DropEnd) + reopen placements"),
  "C15": ("exploration", "Runtime monitor: hook H1 (resident set under the cache lock) vs stat() at every point where the worker is parked or idle; limit clause right after appends; drain clause at the end and after reopen.", "stat vs resident-set hook at quiescent points"),
